@@ -400,6 +400,7 @@ theorem body_names : ∀ (s : Js) (nb : Names) (loc : List String) (nb' : Names)
   | fdecl f ps b _ => intro nb loc nb' ks hb; simp [bodyOk] at hb
   | fexpr ps b _ => intro nb loc nb' ks hb; simp [bodyOk] at hb
   | call f a _ _ => intro nb loc nb' ks hb; simp [bodyOk] at hb
+  | loop i k n b _ => intro nb loc nb' ks hb; simp [bodyOk] at hb
   | num m => intro nb loc nb' ks hb hl; simp only [bodyOk] at hb; exact pure_names_false hb hl
   | str m => intro nb loc nb' ks hb hl; simp only [bodyOk] at hb; exact pure_names_false hb hl
   | ident m => intro nb loc nb' ks hb hl; simp only [bodyOk] at hb; exact pure_names_false hb hl
@@ -1126,6 +1127,7 @@ theorem body_step (D : List String) (fuel : Nat) (ihP : PureP D fuel) (ihA : Arg
   | fdecl f ps b => simp [bodyOk] at hb
   | fexpr ps b => simp [bodyOk] at hb
   | call f a => simp [bodyOk] at hb
+  | loop i k n b => simp [bodyOk] at hb
   | num m =>
     simp only [bodyOk] at hb
     obtain ⟨h1, h2, h3, h4, h5⟩ := body_of_pure hP1 hb he hl hD hfr hg hloc
